@@ -51,7 +51,6 @@ def on_run(rec, run, w, size):
 def on_case(rec, case):
     rec.count("traces")
     rec.count("transitions", len(case.log.hits))
-    rec.mark("states", case.data)
     names = [getattr(d, "__name__", None) or getattr(getattr(d, "func", None), "__name__", "?") + ":" + str(getattr(d, "args", ["?"])[0])
              for d in streams.registry()]
     nodes = monitors.c03(rec, case.tree, case.data, case.log, case.witness(), case.size, names)
